@@ -5,8 +5,10 @@ import (
 	"errors"
 	"fmt"
 	"net"
+	"os"
 	"sync"
 	"sync/atomic"
+	"syscall"
 	"time"
 
 	"github.com/anacrolix/dht/v2"
@@ -436,6 +438,37 @@ func c19run(c *evid.Ctx, r *gen.Rand, run int) {
 			if covered(d.To) {
 				c.Violation("datagram-sent-to-blocked-address:"+name, fmt.Sprintf("%s: %s wrote %q to %v", desc, name, truncBytes(d.B), d.To), nil)
 				break
+			}
+		}
+	}
+	// ---- the list changes while a write to the address is failing at the socket ----
+	{
+		z := &net.UDPAddr{IP: r.PublicIPv4(), Port: r.Port()}
+		errno := gen.Pick(r, []syscall.Errno{syscall.ENOBUFS, syscall.EAGAIN, syscall.EPERM, syscall.ENETUNREACH})
+		var first atomic.Int64
+		first.Store(-1)
+		n.Conn.SetHook(func(d simnet.Datagram) error {
+			if d.To.String() != z.String() {
+				return nil
+			}
+			if first.CompareAndSwap(-1, int64(d.Seq)) {
+				bl.Add(z.IP)
+				n.S.SetIPBlockList(bl)
+				return &net.OpError{Op: "write", Net: "udp", Addr: d.To, Err: os.NewSyscallError("sendto", errno)}
+			}
+			return nil
+		})
+		n.S.Query(context.Background(), dht.NewAddr(z), "ping", dht.QueryInput{NumTries: 3})
+		n.Quiesce(nil)
+		c.Eval(1)
+		c.Count("list changes during a failing socket write judged", 1)
+		c.Distinct(gen.Hash64("errno", int(errno), passive))
+		if f := first.Load(); f >= 0 {
+			for _, d := range n.Conn.Captured(int(f) + 1) {
+				if d.To.String() == z.String() {
+					c.Violation("datagram-sent-to-blocked-address:after-a-failed-write-during-which-the-list-changed", fmt.Sprintf("%s: the first write to %v failed with %v while SetIPBlockList covering it completed; %q was written to it afterwards", desc, z, errno, truncBytes(d.B)), nil)
+					break
+				}
 			}
 		}
 	}
